@@ -69,6 +69,30 @@ theorem handler_same_order (sc : SpecCfg) (vs : List Value) (hnt : sc.kind.isTry
 /-- a single branch yields its bare value -/
 theorem single_branch_bare (v : Value) : mkTuple [v] = v := rfl
 
+/-- **From the tokens to the result tuple** (non-try macros, no handler): whatever token list the parser accepts — any
+    behaviour of syn —, if the code expanded from it returns at all, it returns the tuple whose element `i` is the value
+    branch `i`'s own last chain returned; one element per branch written, in the order written. -/
+theorem accepted_result_positions (o : Oracle) (toks : Toks) (σ : World) (parent : Option String) (p : Input)
+    (kind : Kind) (code : Code) (hparse : parseMacroInput o toks = .ok p) (hd : PlainInvocation p kind)
+    (hgen : gen p kind = .ok code) (hnt : kind.isTry = false) (hh : p.handler = none) (r : Value)
+    (hr : (evalCode σ parent code).res = .ok r) :
+    ∃ vs, r = mkTuple vs ∧ ∀ i, i < p.branches.length → ∃ v, vs[i]? = some v ∧
+      (i, (cfgFor σ parent p kind).depth i - 1, v) ∈ chainEnds (evalCode σ parent code).trace := by
+  rw [accepted_eq_reference o toks σ parent p kind code hparse hd hgen] at hr ⊢
+  obtain ⟨ht, hres⟩ := run_trace_no_handler σ parent p kind hh
+  rw [ht]
+  rw [hres] at hr
+  obtain ⟨f, hf, hr⟩ := M.andThen_res_ok hr
+  cases f with
+  | vals vs =>
+    have hk : (cfgFor σ parent p kind).kind.isTry = false := hnt
+    simp [specHandle, hk, M.ret] at hr
+    exact ⟨vs, hr.symm, fun i hi => result_positions σ parent p kind hnt vs hf i hi⟩
+  | failed v =>
+    have := specLoop_post (cfgFor σ parent p kind) ((cfgFor σ parent p kind).maxDepth - 1) 0
+      (List.replicate (cfgFor σ parent p kind).n none) (.failed v) hf
+    exact absurd this.2 (by simp [cfgFor, hnt])
+
 /-- Non-vacuity of `result_positions`: depths (1, 3, 2), every chain returns a value that names its branch and step;
     the run ends with the three values in branch order, each taken from the branch's own last step. -/
 def posWorld : World where
@@ -85,5 +109,17 @@ def posProg : Input :=
 
 example : (loopOf posWorld none posProg ⟨false, false, false⟩).res = .ok (.vals [.succ (.atom 0), .succ (.atom 21), .succ (.atom 12)]) := by rfl
 example : (loopOf posWorld none posProg ⟨false, false, true⟩).res = .ok (.vals [.succ (.atom 0), .succ (.atom 21), .succ (.atom 12)]) := by rfl
+
+/-- Non-vacuity of the `accepted_*` theorems: with an oracle that takes single tokens for expressions, the token list
+    `a |> f , b` is accepted, the parsed program is a plain invocation of `join!`, and the generator produces code. -/
+example :
+    let o : Oracle := { validExpr := fun ts => ts.length == 1, validType := fun _ => false, isBlock := fun _ => false,
+                        letSplit := fun _ => .notLet, reprintExpr := id, reprintType := id, exprPrefix := fun _ => none,
+                        pathPrefix := fun _ => none, litBool := fun _ => none }
+    let toks : Toks := [.ident "a", .punct '|' true, .punct '>' false, .ident "f", .punct ',' false, .ident "b"]
+    ∃ p, parseMacroInput o toks = .ok p ∧ p.branches.length = 2 ∧ PlainInvocation p ⟨false, false, false⟩ ∧
+      (gen p ⟨false, false, false⟩).toOption.isSome = true := by
+  intro o toks
+  refine ⟨_, rfl, rfl, ⟨rfl, rfl, by decide, by decide, by decide⟩, rfl⟩
 
 end JoinModel.Props.C04
